@@ -180,6 +180,8 @@ impl Array {
 
     fn index_or_insert(&mut self, val: &Val) -> Result<&mut Val, ValError> {
         match val {
+            // `as usize` saturates: an index this large cannot be extended to (i + 1 overflows)
+            Val::Number(n) if *n as usize == usize::MAX => Err(ValError::InvalidKey(val.clone())),
             Val::Number(n) => Ok(self.index_arr_or_insert(*n as usize)),
             Val::Undefined => Ok(self.index_dict_or_insert(DictKey::Undefined)),
             Val::Null => Ok(self.index_dict_or_insert(DictKey::Null)),
